@@ -217,3 +217,66 @@ fn kx_m_unsplit_non_adjacent_copies() {
     if i < l2 { assert!(b[l1 + i] == data[o2 + i]); }
     drop(b);
 }
+
+// ---- K8 twins of the zero-copy operations (see b_conv.rs) ---------------------------------------
+
+// @ob props=C07,C08,C04,C01 tier=quick kind=Kbounded bound="allocation size 8" fns=shared_v_to_mut,Bytes::try_into_mut
+#[kani::proof]
+#[kani::unwind(10)]
+fn kx_sharedv_try_into_mut_unique_k8() {
+    let (base, vcap) = alloc_fixed(8);
+    let data = fill(base, vcap);
+    let (b, g) = sharedv_on(base, vcap, 1);
+    match b.try_into_mut() {
+        Ok(m) => {
+            assert!(wf_marc(&m, &g, base as usize + g.off, g.len, vcap - g.off) && count(&g) == 1 && block_intact(&g));
+            let j: usize = kani::any();
+            if j < vcap { assert!(unsafe { *base.add(j) } == data[j]); }
+            core::mem::forget(m);
+        }
+        Err(e) => { core::mem::forget(e); assert!(false); }
+    }
+}
+
+// @ob props=C07,C04,C01,C03 tier=quick kind=Kbounded bound="allocation size 8" fns=BytesMut::split_off,BytesMut::split_to,BytesMut::unsplit,BytesMut::freeze
+#[kani::proof]
+#[kani::unwind(10)]
+fn kx_m_zero_copy_ops_k8() {
+    // split_off / split_to / unsplit-adjacent / freeze on an 8-byte allocation: addresses as
+    // tabled, and no byte of the allocation moves
+    let (base, vcap) = alloc_fixed(8);
+    let data = fill(base, vcap);
+    let arc: bool = kani::any();
+    let (mut b, g) = if arc { marc_on(base, vcap, 2) } else { mvec_on(base, vcap) };
+    let p = base as usize + g.off;
+    let at: usize = kani::any();
+    let op: u8 = kani::any();
+    if op == 0 {
+        kani::assume(at <= g.cap);
+        let o = b.split_off(at);
+        assert!(b.as_ptr() as usize == p && o.as_ptr() as usize == p + at && b.capacity() == at && o.capacity() == g.cap - at);
+        core::mem::forget(o);
+    } else if op == 1 {
+        kani::assume(at <= g.len);
+        let o = b.split_to(at);
+        assert!(o.as_ptr() as usize == p && b.as_ptr() as usize == p + at && o.len() == at && b.len() == g.len - at);
+        core::mem::forget(o);
+    } else if op == 2 {
+        kani::assume(at >= 1 && at < g.len);
+        let o = b.split_off(at);
+        let (ol, oc) = (o.len(), o.capacity());
+        b.unsplit(o);
+        assert!(b.as_ptr() as usize == p && b.len() == at + ol && b.capacity() == at + oc);
+    } else {
+        kani::assume(g.len > 0);
+        let f = b.freeze();
+        assert!(f.as_ptr() as usize == p && f.len() == g.len);
+        core::mem::forget(f);
+        let j: usize = kani::any();
+        if j < vcap { assert!(unsafe { *base.add(j) } == data[j]); }
+        return;
+    }
+    let j: usize = kani::any();
+    if j < vcap { assert!(unsafe { *base.add(j) } == data[j]); }
+    core::mem::forget(b);
+}
